@@ -154,6 +154,8 @@ def summarise_loop(ip, st, fr, H):
     if st.F.prove_eq(N):
         st.loopmode[key] = ("done",)
         return [st]
+    if N.is_const() and 0 < N.c <= 3:
+        return unroll_loop(ip, st, fr, H, N.c)
     var = T.fresh("$i")
     # 2. discovery pass
     outsA, c0, _, _ = run_iteration(ip, st, fr, H, var, N, {})
@@ -392,3 +394,30 @@ def _imul_size(step, cnt, w):
     if cnt.is_const():
         return T.iconst(w, c * cnt.c)
     return T.imulc(T.isize(w, cnt), c)
+
+
+def unroll_loop(ip, st, fr, H, n):
+    """loops whose trip count is a literal constant <= 3 are executed iteration by iteration."""
+    key = (fr.id, H)
+    states = [st]
+    for k in range(n):
+        nxt = []
+        for s in states:
+            # inner loops finished in the previous iteration must run again
+            for kk in [x for x, m in s.loopmode.items() if x[0] == fr.id and m[0] == "done"]:
+                del s.loopmode[kk]
+            s.loopmode[key] = ("iterk", k)
+            outs = ip.exec_from(s, fr, H, stop_at=H, start=True)
+            for kind, s2, _ in outs:
+                if kind == "stop":
+                    nxt.append(s2)
+                elif kind == "panic":
+                    st.oblig.append({"kind": "panic-path", "fn": fr.body["path"], "ok": False, "detail": "explicit panic reachable inside loop"})
+                else:
+                    raise Undecided("early exit (%s) from loop in %s" % (kind, fr.body["path"]))
+        states = nxt
+        if len(states) > 16:
+            raise Undecided("too many paths while unrolling loop in %s" % fr.body["path"])
+    for s in states:
+        s.loopmode[key] = ("done",)
+    return states
